@@ -128,6 +128,17 @@ def _nested_code():
             src = "%s eval(%s);" % (busy, json.dumps(src))
         return ("", src)
     K["eval_chain_busy"] = chain
+    # exponential recursion through nested interpreters: every nested VM runs a handful of
+    # instructions (far fewer than its own poll cadence), the outer one hardly any
+    def eval_tree(c, p):
+        depth = 4 if c else 45
+        return ("var dd9=0; function ft9(){ dd9++; if (dd9 < %d) { eval('ft9(); ft9()'); } dd9--; }" % depth, "ft9();")
+    K["eval_tree"] = eval_tree
+
+    def newfn_tree(c, p):
+        depth = 4 if c else 45
+        return ("var dn9=0; function fn9(){ dn9++; if (dn9 < %d) { new Function('fn9(); fn9()')(); } dn9--; }" % depth, "fn9();")
+    K["newfn_tree"] = newfn_tree
     K["fn_eval_loop"] = lambda c, p: ("", "var g8=new Function(%s); g8();" % json.dumps(
         "eval(%s)" % json.dumps("while(%s){}" % _c(c))))
     return K
